@@ -1,6 +1,7 @@
 from __future__ import annotations
 
 import json
+import os
 import os.path
 from pathlib import Path
 from typing import Any, Literal, Optional
@@ -208,8 +209,12 @@ class LocalDirectoryContext(Context):
                         lines.append(line)
                 if not found:
                     lines.append(f'{name} {annotation}\n')
-            with open(path, 'w') as fh:
+            # NOTE: Replace the file atomically to not lose the annotations
+            # of other models if interrupted
+            tmp_path = path.with_suffix('.tmp')
+            with open(tmp_path, 'w') as fh:
                 fh.writelines(lines)
+            os.replace(tmp_path, path)
 
     def retrieve_annotation(self, name: str) -> str:
         path = self._annotations_path
